@@ -437,6 +437,14 @@ class Driver(GenericAdapter):
             for kk in list(vis):
                 rn = {(("renamed", "key") if a is kk else a): b for a, b in vis.items()}
                 e("renamed_key_dict", rn)
+                if eq.get("renamed_key_dict") is False:
+                    # the same comparand as a mapping that answers for keys it does not hold (defaultdict, Counter): it
+                    # holds another key, so it is not equal - and asking must not make it grow
+                    import collections
+                    dd = collections.defaultdict(lambda v_=vis[kk]: v_, rn)
+                    e("renamed_key_dict", dd, refl=False)
+                    if eq.get("renamed_key_dict") is False and len(dd) != len(rn):
+                        eq["renamed_key_dict"] = "comparand-grew"
                 if eq.get("renamed_key_dict") is not False:
                     ren_any = eq.get("renamed_key_dict")
                     break
